@@ -2,6 +2,7 @@ package main
 
 import (
 	"fmt"
+	"go/ast"
 	"go/token"
 	"go/types"
 	"sort"
@@ -97,11 +98,144 @@ func mutexOf(c *ssa.CallCommon) (string, string, bool) {
 }
 
 // heldAt computes, for every instruction of fn, the set of mutexes certainly held before it.
-func heldAt(fn *ssa.Function) map[ssa.Instruction]map[string]bool {
+func heldAt(fn *ssa.Function) map[ssa.Instruction]map[string]bool { return heldAtFrom(fn, nil) }
+
+// heldOnEntry: the mutexes of fn's parameters (receiver included) that every caller holds when it
+// calls fn — for an unexported function or method that is only ever called directly (never used as
+// a value, never started with go/defer), so that all its call sites are in view. A helper documented
+// "mu must be held by the caller" gets its lockset from those call sites.
+type entryLocks struct {
+	p       *Prog
+	callers map[*ssa.Function][]ssa.CallInstruction
+	escapes map[*ssa.Function]bool
+	memo    map[*ssa.Function]map[string]bool
+	busy    map[*ssa.Function]bool
+	held    map[*ssa.Function]map[ssa.Instruction]map[string]bool
+}
+
+func originOf(fn *ssa.Function) *ssa.Function {
+	if fn == nil {
+		return nil
+	}
+	if o := fn.Origin(); o != nil {
+		return o
+	}
+	return fn
+}
+
+func newEntryLocks(p *Prog) *entryLocks {
+	el := &entryLocks{p: p, callers: map[*ssa.Function][]ssa.CallInstruction{}, escapes: map[*ssa.Function]bool{}, memo: map[*ssa.Function]map[string]bool{}, busy: map[*ssa.Function]bool{}, held: map[*ssa.Function]map[ssa.Instruction]map[string]bool{}}
+	for _, fn := range p.Funcs() {
+		forEachInstr(fn, func(_ *ssa.BasicBlock, _ int, in ssa.Instruction) {
+			var callee ssa.Value
+			if ci, ok := in.(ssa.CallInstruction); ok {
+				callee = ci.Common().Value
+				if sc := originOf(ci.Common().StaticCallee()); sc != nil {
+					if _, plain := in.(*ssa.Call); plain {
+						el.callers[sc] = append(el.callers[sc], ci)
+					} else {
+						el.escapes[sc] = true // go f(…), defer f(…): runs outside the caller's critical section
+					}
+				}
+			}
+			for _, op := range in.Operands(nil) {
+				if op == nil || *op == nil {
+					continue
+				}
+				f, isF := (*op).(*ssa.Function)
+				if !isF {
+					continue
+				}
+				if *op == callee {
+					if _, isCall := in.(ssa.CallInstruction); isCall {
+						continue
+					}
+				}
+				// used as a value (closure of a bound method, argument, stored)
+				el.escapes[originOf(f)] = true
+				if f.Synthetic != "" {
+					// bound-method / thunk wrappers stand for the method they wrap
+					for _, b := range f.Blocks {
+						for _, i2 := range b.Instrs {
+							if ci, ok := i2.(ssa.CallInstruction); ok {
+								if sc := originOf(ci.Common().StaticCallee()); sc != nil {
+									el.escapes[sc] = true
+								}
+							}
+						}
+					}
+				}
+			}
+		})
+	}
+	return el
+}
+
+func (el *entryLocks) heldIn(fn *ssa.Function) map[ssa.Instruction]map[string]bool {
+	if h, ok := el.held[fn]; ok {
+		return h
+	}
+	h := heldAtFrom(fn, el.entry(fn))
+	el.held[fn] = h
+	return h
+}
+
+func (el *entryLocks) entry(fn *ssa.Function) map[string]bool {
+	fn = originOf(fn)
+	if m, ok := el.memo[fn]; ok {
+		return m
+	}
+	if el.busy[fn] {
+		return nil
+	}
+	el.busy[fn] = true
+	defer func() { el.busy[fn] = false }()
+	out := map[string]bool{}
+	sites := el.callers[fn]
+	if len(sites) == 0 || el.escapes[fn] || ast.IsExported(fn.Name()) || fn.Parent() != nil {
+		el.memo[fn] = out
+		return out
+	}
+	mutexes := map[string]bool{}
+	for _, g := range guardedBy {
+		mutexes[g.mutex] = true
+	}
+	for _, g := range writeGuarded {
+		mutexes[g.mutex] = true
+	}
+	key := func(v ssa.Value) string {
+		bc := &boundsCtx{keys: map[ssa.Value]string{}, symVal: map[string]ssa.Value{}}
+		return bc.key(v)
+	}
+	for i, prm := range fn.Params {
+		for m := range mutexes {
+			all := true
+			for _, ci := range sites {
+				args := ci.Common().Args
+				caller := ci.Parent()
+				if i >= len(args) || !el.heldIn(caller)[ci.(ssa.Instruction)][key(args[i])+"|"+m] {
+					all = false
+					break
+				}
+			}
+			if all {
+				out[key(prm)+"|"+m] = true
+			}
+		}
+	}
+	el.memo[fn] = out
+	return out
+}
+
+// heldAtFrom: heldAt with the mutexes already held when fn is entered.
+func heldAtFrom(fn *ssa.Function, entry map[string]bool) map[ssa.Instruction]map[string]bool {
 	in := map[*ssa.BasicBlock]map[string]bool{}
 	out := map[*ssa.BasicBlock]map[string]bool{}
 	res := map[ssa.Instruction]map[string]bool{}
 	universe := map[string]bool{}
+	for k := range entry {
+		universe[k] = true
+	}
 	forEachInstr(fn, func(_ *ssa.BasicBlock, _ int, i ssa.Instruction) {
 		if c := callOf(i); c != nil {
 			if k, _, ok := mutexOf(c); ok {
@@ -127,7 +261,7 @@ func heldAt(fn *ssa.Function) map[ssa.Instruction]map[string]bool {
 		for _, b := range fn.Blocks {
 			var cur map[string]bool
 			if b == fn.Blocks[0] {
-				cur = map[string]bool{}
+				cur = clone(entry)
 			} else {
 				first := true
 				for _, p := range b.Preds {
@@ -179,6 +313,7 @@ func heldAt(fn *ssa.Function) map[ssa.Instruction]map[string]bool {
 
 func c16Lockset(p *Prog, r *Report) {
 	nacc := 0
+	el := newEntryLocks(p)
 	// functions run by the status goroutine: closure in RunFS + printStatus
 	statusFns := map[*ssa.Function]bool{}
 	if rf := p.Func(fsPkg, "RunFS"); rf != nil {
@@ -239,7 +374,7 @@ func c16Lockset(p *Prog, r *Report) {
 				}
 				nacc++
 				if held == nil {
-					held = heldAt(fn)
+					held = el.heldIn(fn)
 				}
 				bc := &boundsCtx{keys: map[ssa.Value]string{}, symVal: map[string]ssa.Value{}}
 				want := bc.key(base) + "|" + g.mutex
